@@ -71,6 +71,13 @@ CHECKS['C14'] = {
     'technique': 'TLA+ exact least squares + TLC enumeration + state replay; TLC-validated observation events',
 }
 
+CHECKS['C16'] = {
+    'text': 'Minvar.tla (EXTENDS Burg.tla, LinAlg.tla): exact inverse of the m x m Toeplitz matrix implied by the order m-1 Burg model gives the lag-domain coefficients of e^H R^-1 e; TLC checks that Musicus formula (the mechanism of minvar.py) equals them, trace(R^-1)>0 and positivity on the NFFT=4 grid; every state is replayed into minvar (even/odd NFFT, three sampling rates; PSD, AR vector with leading 1, reflection coefficients) and pminvar. N<=128, m<=16: ObsC16.tla.',
+    'design_ref': 'DESIGN.md 3/C16',
+    'note': 'Exact universe: m in 2..3, N in 4..5/6; the harness evaluates roots of unity. Large sizes: the quadratic form is recomputed by the harness with numpy (inverse Levinson transcription of LevFn.tla + matrix inverse), ill-conditioned R excluded.',
+    'technique': 'TLA+ exact envelope vs mechanism + TLC enumeration + state replay; TLC-validated observation events',
+}
+
 NOT_APPLICABLE = {
     'C18': 'Slepian tapers: irrational eigenproblem solved in C; no exact finite model exists and quantised re-verification would make Python the oracle (a different technique). DESIGN.md section 4.',
 }
